@@ -63,6 +63,34 @@ impl Violation {
     }
 }
 
+/// Process-wide occurrence counter per violation signature. Systems ask it before building an
+/// expensive detail message: after 64 occurrences of a signature the detail is skipped (the
+/// engine keeps the first occurrence of every signature and only counts the rest).
+pub fn flood_guard(signature: &str) -> bool {
+    use std::collections::HashMap;
+    use std::sync::{OnceLock, RwLock};
+    static SEEN: OnceLock<RwLock<HashMap<String, AtomicU64>>> = OnceLock::new();
+    let m = SEEN.get_or_init(|| RwLock::new(HashMap::new()));
+    {
+        let r = m.read().unwrap();
+        if let Some(c) = r.get(signature) {
+            return c.fetch_add(1, Ordering::Relaxed) >= 64;
+        }
+    }
+    let mut w = m.write().unwrap();
+    w.entry(signature.to_string()).or_insert_with(|| AtomicU64::new(0)).fetch_add(1, Ordering::Relaxed);
+    false
+}
+
+impl Violation {
+    /// Like `new`, but `detail` is only evaluated while the signature is not flooding.
+    pub fn lazy(rule: &str, signature: String, detail: impl FnOnce() -> String) -> Violation {
+        let signature = signature.replace(' ', "_");
+        let d = if flood_guard(&signature) { String::new() } else { detail() };
+        Violation { rule: rule.to_string(), signature, detail: d, case: String::new(), rust_test: String::new() }
+    }
+}
+
 pub fn verif_root() -> PathBuf {
     PathBuf::from(std::env::var("VERIF_ROOT").unwrap_or_else(|_| "/verif".to_string()))
 }
@@ -81,6 +109,9 @@ pub struct Check {
     transitions: AtomicU64,
     traces: AtomicU64,
     violations: Mutex<BTreeMap<String, (Violation, u64)>>,
+    /// occurrence counters per signature; lets floods of one class (millions of inputs hitting
+    /// the same defect) bypass formatting-heavy bookkeeping after the first 64
+    counts: std::sync::RwLock<std::collections::HashMap<String, AtomicU64>>,
     samples: Mutex<Vec<Value>>,
     extra: Mutex<Map<String, Value>>,
     assumptions: Mutex<Vec<String>>,
@@ -108,6 +139,7 @@ impl Check {
             transitions: AtomicU64::new(0),
             traces: AtomicU64::new(0),
             violations: Mutex::new(BTreeMap::new()),
+            counts: std::sync::RwLock::new(std::collections::HashMap::new()),
             samples: Mutex::new(Vec::new()),
             extra: Mutex::new(Map::new()),
             assumptions: Mutex::new(Vec::new()),
@@ -117,13 +149,42 @@ impl Check {
         }
     }
 
+    /// Cheap test for call sites that want to skip building a detailed message: true once a
+    /// signature has been recorded 64 times (the occurrence is counted).
+    pub fn flooded(&self, signature: &str) -> bool {
+        let r = self.counts.read().unwrap();
+        if let Some(c) = r.get(signature) {
+            if c.load(Ordering::Relaxed) >= 64 {
+                c.fetch_add(1, Ordering::Relaxed);
+                return true;
+            }
+        }
+        false
+    }
+
     pub fn violate(&self, v: Violation) {
+        if self.flooded(&v.signature) {
+            return;
+        }
+        {
+            let r = self.counts.read().unwrap();
+            match r.get(&v.signature) {
+                Some(c) => {
+                    c.fetch_add(1, Ordering::Relaxed);
+                }
+                None => {
+                    drop(r);
+                    let mut w = self.counts.write().unwrap();
+                    w.entry(v.signature.clone()).or_insert_with(|| AtomicU64::new(0)).fetch_add(1, Ordering::Relaxed);
+                }
+            }
+        }
         let mut m = self.violations.lock().unwrap();
         match m.get_mut(&v.signature) {
             Some(e) => {
                 e.1 += 1;
                 // keep the smallest case (shortest trace / simplest input) as representative
-                if !v.case.is_empty() && (e.0.case.is_empty() || v.case.len() < e.0.case.len()) {
+                if !v.case.is_empty() && !v.detail.starts_with("(detail elided") && (e.0.case.is_empty() || v.case.len() < e.0.case.len()) {
                     e.0 = v;
                 }
             }
@@ -214,7 +275,15 @@ impl Check {
         let root = verif_root();
         let known = load_known(&root, &self.id);
         let wall = self.start.elapsed().as_secs_f64();
-        let vio = self.violations.into_inner().unwrap();
+        let mut vio = self.violations.into_inner().unwrap();
+        {
+            let counts = self.counts.read().unwrap();
+            for (sig, e) in vio.iter_mut() {
+                if let Some(c) = counts.get(sig) {
+                    e.1 = e.1.max(c.load(Ordering::Relaxed));
+                }
+            }
+        }
         let mut unlisted = 0usize;
         let mut known_hit = 0usize;
         let mut vio_json = Vec::new();
